@@ -13,6 +13,8 @@ claimed = {
  "C01": ("other", "Bounded symbolic execution of the real List/Array code (go/ssa -> SMT): one-step inductive check from an arbitrary state of size <= N with fully symbolic 64-bit indices, slots, ranges and operand contents; every assertion instance is an SMT query decided unsat by z3, step budget as unwinding assertion. Covers all argument values at each size, not all sizes.", "symbolic execution of go/ssa + SMT (z3), one-step induction", "3/C01"),
  "C17": ("other", "Bounded symbolic execution of the real iterator code: one move from an arbitrary cursor (symbolic slot, symbolic 64-bit ToSlot argument) over symbolic contents, size <= N; snapshot harnesses per collection kind.", "symbolic execution of go/ssa + SMT (z3), one-step induction", "3/C17"),
 }
+claimed["C09"] = ("other", "Bounded symbolic execution of the real merge sorter, ReverseValues and ShuffleValues (go/ssa -> SMT) on arrays of n symbolic values: ranker as an (Ackermannized) uninterpreted function covers every total preorder in one run, an unconstrained ranker covers inconsistent rankers (termination via step budget + permutation), crypto/rand draws are symbolic. Exhaustive over all values, rankers and draws at each length <= bound.", "symbolic execution of go/ssa + SMT (z3, cvc5 fallback), uninterpreted-function ranker", "3/C09")
+claimed["C13"] = ("other", "One-step symbolic check of the real stack code against the LIFO model from every state of size <= capacity (capacities 1..4 and the default 16), constructors from 0..33 initial values; contents symbolic.", "symbolic execution of go/ssa + SMT (z3), one-step induction", "3/C13")
 reasons = {}
 
 checks = []
